@@ -2,8 +2,15 @@
 package main
 
 import (
+	"fmt"
+
+	"github.com/pingcap/kvproto/pkg/pdpb"
+	pd "github.com/tikv/pd/client"
+	"github.com/tikv/pd/pkg/tsoutil"
+	"google.golang.org/grpc"
 	"strings"
 	"time"
+	"verif/engine/evidence"
 
 	"github.com/tikv/pd/pkg/verifshim/sched"
 	"github.com/tikv/pd/pkg/verifshim/vclock"
@@ -48,6 +55,112 @@ func scenario(name string, ad tsoh.Admin, pre, dev int, tiers string, faults boo
 	}}
 }
 
+// fakeStream answers each TSO batch request the way the allocator does: the raw logical
+// counter advances by count, the response carries raw<<bits + suffix (reference of the
+// statement: a response with count n owns the n consecutive values ending at it).
+type fakeStream struct {
+	grpc.ClientStream
+	phys, raw    int64
+	bits, suffix uint32
+	last         *pdpb.TsoRequest
+	override     *pdpb.Timestamp
+}
+
+func (f *fakeStream) Send(r *pdpb.TsoRequest) error { f.last = r; return nil }
+func (f *fakeStream) Recv() (*pdpb.TsoResponse, error) {
+	if f.override != nil {
+		t := f.override
+		f.override = nil
+		return &pdpb.TsoResponse{Count: f.last.Count, Timestamp: t}, nil
+	}
+	f.raw += int64(f.last.Count)
+	return &pdpb.TsoResponse{Count: f.last.Count, Timestamp: &pdpb.Timestamp{Physical: f.phys, Logical: f.raw<<f.bits + int64(f.suffix), SuffixBits: f.bits}}, nil
+}
+func (f *fakeStream) CloseSend() error { return nil }
+
+// clientHalf: engine C over suffix widths x suffixes x batch-size sequences: the timestamps the
+// real client code hands to the individual requests of each batch must be exactly the values
+// owned by the response, strictly increasing across batches, and a regressing response must
+// be refused by the client's fallback detection.
+func clientHalf(tier string, rep *evidence.Reporter, cov *evidence.Coverage) {
+	maxCount, nBatches := 6, 3
+	if tier == "thorough" {
+		maxCount, nBatches = 12, 4
+	}
+	cases := int64(0)
+	var sample interface{}
+	counts := make([]int, nBatches)
+	var rec func(d int)
+	check := func(bits, suffix uint32, physStep int64) {
+		cl := pd.VerifNewTSOClient()
+		fs := &fakeStream{phys: 1000, bits: bits, suffix: suffix}
+		var prev uint64
+		seen := map[uint64]bool{}
+		for b, n := range counts {
+			if physStep != 0 && b > 0 {
+				fs.phys += physStep
+				fs.raw = 0
+			}
+			rawBefore := fs.raw
+			ph, lg, err := cl.Process(fs, "dc", n)
+			cases++
+			key := fmt.Sprintf("bits=%d suffix=%d counts=%v batch=%d", bits, suffix, counts, b)
+			if err != nil {
+				rep.Report(&evidence.Violation{Scenario: "client-half", Key: "client-refused-valid-response", Message: key + ": " + err.Error(), Replay: key})
+				return
+			}
+			for i := 0; i < n; i++ {
+				want := (rawBefore+int64(i)+1)<<bits + int64(suffix)
+				if ph[i] != fs.phys || lg[i] != want {
+					rep.Report(&evidence.Violation{Scenario: "client-half", Key: "client-request-timestamp", Message: fmt.Sprintf("%s: request %d got %d.%d, the response owns %d.%d", key, i, ph[i], lg[i], fs.phys, want), Replay: key})
+					return
+				}
+				v := tsoutil.ComposeTS(ph[i], lg[i])
+				if seen[v] || v <= prev {
+					rep.Report(&evidence.Violation{Scenario: "client-half", Key: "client-order", Message: fmt.Sprintf("%s: request %d got %d which is not above the previous %d", key, i, v, prev), Replay: key})
+					return
+				}
+				seen[v], prev = true, v
+			}
+			if sample == nil && b == nBatches-1 && bits == 2 {
+				sample = map[string]interface{}{"scope": "client-half", "bits": bits, "suffix": suffix, "counts": append([]int(nil), counts...), "last_batch_logicals": lg}
+			}
+		}
+		// a response that does not advance (same physical, logical not above the last one) must be refused
+		fs.override = &pdpb.Timestamp{Physical: fs.phys, Logical: fs.raw<<bits + int64(suffix), SuffixBits: bits}
+		if _, _, err := cl.Process(fs, "dc", 1); err == nil {
+			rep.Report(&evidence.Violation{Scenario: "client-half", Key: "client-fallback-not-detected", Message: fmt.Sprintf("bits=%d suffix=%d counts=%v: a response equal to the last timestamp was accepted", bits, suffix, counts), Replay: fmt.Sprint(counts)})
+		}
+		cases++
+	}
+	rec = func(d int) {
+		if d == nBatches {
+			for bits := uint32(0); bits <= 4; bits++ {
+				for suffix := uint32(0); suffix < 1<<bits; suffix++ {
+					for _, step := range []int64{0, 1} {
+						check(bits, suffix, step)
+					}
+				}
+			}
+			return
+		}
+		for n := 1; n <= maxCount; n++ {
+			counts[d] = n
+			rec(d + 1)
+		}
+	}
+	rec(0)
+	cov.States += cases
+	cov.Transitions += cases
+	cov.TracesValidatedAgainstImpl += cases
+	cov.Evaluations += cases
+	cov.Scenarios = append(cov.Scenarios, map[string]interface{}{"scope": "client-half", "batches_processed_by_real_client_code": cases, "suffix_bits": "0..4", "max_count": maxCount, "batches": nBatches})
+	if sample != nil {
+		cov.Samples = append(cov.Samples, sample)
+	}
+	fmt.Printf("C01 client-half batches=%d\n", cases)
+}
+
 func main() {
 	var l []*explore.Scenario
 	noAtomics := uint32(1<<sched.KLock | 1<<sched.KRLock | 1<<sched.KEtcd | 1<<sched.KUser | 1<<sched.KWait | 1<<sched.KStart)
@@ -74,6 +187,7 @@ func main() {
 	explore.Main(&explore.Config{
 		Property:  "C01",
 		Scenarios: l,
+		Extra:     clientHalf,
 		Rule:      "all schedules (preemption bound) x clock answers (deviation bound) of 2 requesters + updater + one admin action per scenario; outcome = multiset of returned timestamps",
 		Assumptions: []string{
 			"fake etcd conformance-checked against embedded etcd",
